@@ -37,8 +37,8 @@ VOCAB = GRAPH_VOCAB + [
 STEP_RULES = [
     R(r"for \(auto n : grid\.neighbors\(i, neighbors\)\)\s*\{",
       "neighbors_n = grid_neighbors(i, neighbors);\nfor (size_t nb_k = 0; nb_k < neighbors_n; ++nb_k)\n{ struct neighbor n = neighbors[nb_k];", 1),
-    R(r"slope = \(elevation\.flat\(i\) - elevation\.flat\(n\.idx\)\) / n\.distance;",
-      "slope = FSL_DIV(elevation.flat(i) - elevation.flat(n.idx), n.distance);", 1),
+    # the slope quotient: whatever numerator expression is divided by the neighbour's distance (today: the elevation drop, written inline)
+    R(r"slope = ((?:[^;/]|\([^()]*\))+?) / n\.distance;", r"slope = FSL_DIV(\1, n.distance);", 1),
     V(r"\bcontinue;", "return; /* `continue` of the outlined loop body */"),
     # same stated row-capacity precondition instance as in the single-direction router
     # reference aliases into the donor tables (`auto& x = donors_count(n.idx);`) become pointers
@@ -428,3 +428,67 @@ PROPS["C09"] = dict(
     undecided=["weights of draining nodes are abstract (pow / division as deterministic functions): their independence of history follows from the frame "
                "(the step's only inputs are the declared read-only tables) but is not stated bit-precisely"],
 )
+
+
+# ------------------------------------------------------------------------------------------------------------------------------------------
+# C05 `weights proportional to slope raised to the configured exponent`: structural premise, by recording operands (same device as the SPL factor
+# lemma spl.recv.areapow): every power taken in the node step is taken OF THE SLOPE QUOTIENT JUST COMPUTED for that neighbour (elevation drop over the
+# neighbour's distance) WITH THE OPERATOR'S CONFIGURED EXPONENT, and every weight slot stored before the normalisation is such a power.  The
+# quotient and the power themselves stay abstract (no bit-precise statement about their values); what is decided is which operands they get.
+OPS_PRE = r"""
+#ifndef MR_OPS
+#define MR_OPS
+double OPS_LAST_Q; int OPS_Q_SEEN;     /* ghost: value of the last slope quotient, and that one was computed */
+double OPS_LAST_NUM, OPS_LAST_DEN;    /* ghost: its operands */
+int OPS_BAD;                          /* sticky ghost: a power whose base is not the last slope quotient or whose exponent is not the configured one */
+double OPS_EXP;                       /* ghost: the configured exponent (tied to op_slope_exp in `requires`) */
+double OPS_LAST_P; int OPS_P_SEEN;    /* ghost: value of the last power */
+double mr_div_rec(double a, double b)
+__CPROVER_assigns(OPS_LAST_Q, OPS_Q_SEEN, OPS_LAST_NUM, OPS_LAST_DEN)
+__CPROVER_ensures(OPS_Q_SEEN == 1 && SAME_D(OPS_LAST_Q, __CPROVER_return_value) && SAME_D(OPS_LAST_NUM, a) && SAME_D(OPS_LAST_DEN, b))
+__CPROVER_ensures((a > 0 && b > 0 && b < INFINITY) ==> __CPROVER_return_value >= 0)
+;
+double mr_pow_rec(double x, double p)
+__CPROVER_assigns(OPS_BAD, OPS_LAST_P, OPS_P_SEEN)
+__CPROVER_ensures(OPS_BAD == (__CPROVER_old(OPS_BAD) || !(OPS_Q_SEEN && SAME_D(x, OPS_LAST_Q) && SAME_D(p, OPS_EXP))))
+__CPROVER_ensures(OPS_P_SEEN == 1 && SAME_D(OPS_LAST_P, __CPROVER_return_value))
+__CPROVER_ensures((x >= 0 && !isnan(p)) ==> (__CPROVER_return_value >= 0))
+;
+#undef FSL_DIV
+#define FSL_DIV(a, b) mr_div_rec((a), (b))
+#define fsl_pow(x, p) mr_pow_rec((x), (p))
+#endif
+"""
+
+
+def make_step_ops(nb):
+    u = make_step(nb, False, False)
+    u.pre = u.pre + OPS_PRE
+    # the weight stored in a receiver slot (before the normalisation loop) is the power just taken; the quotient's operands are the drop to THAT neighbour
+    # and ITS distance: checked by ghost code right after the slot's weight is stored
+    u.rules = [R(r"receivers_weight\(i, nrec\) = weight;",
+                 "receivers_weight(i, nrec) = weight; FSL_GHOST(if (!(OPS_P_SEEN && SAME_D(weight, OPS_LAST_P) && SAME_D(OPS_LAST_DEN, n.distance) "
+                 "&& SAME_D(OPS_LAST_NUM, elevation.flat(i) - elevation.flat(n.idx)))) OPS_BAD = 1;)", 1)] + list(u.rules)
+    u.contract = u.contract.replace("__CPROVER_assigns(RCNT(i), ", "__CPROVER_assigns(OPS_LAST_Q, OPS_Q_SEEN, OPS_LAST_NUM, OPS_LAST_DEN, OPS_BAD, OPS_LAST_P, OPS_P_SEEN, RCNT(i), ") + r"""
+__CPROVER_requires(OPS_BAD == 0 && OPS_Q_SEEN == 0 && OPS_P_SEEN == 0 && SAME_D(OPS_EXP, op_slope_exp))
+/* C05: every weight is a power OF THE SLOPE of its own receiver (elevation drop / grid distance to that neighbour) WITH the configured exponent */
+__CPROVER_ensures(OPS_BAD == 0)
+"""
+    return u
+
+
+def ops_group(nb):
+    h = harness("mrouter_step", nb, "nondet_size_t(), ").replace(
+        "GX = nondet_size_t(); GD = nondet_double();", "GX = nondet_size_t(); GD = nondet_double(); OPS_BAD = 0; OPS_Q_SEEN = 0; OPS_P_SEEN = 0; OPS_EXP = op_slope_exp;")
+    return Group(
+        name="mrouter.step.weight_operands.nb%d" % nb, units=[is_masked, is_base_level, make_step_ops(nb)], harness=h,
+        entry="h_mrouter_step", enforce="mrouter_step", replace=["grid_neighbors", "mr_div_rec", "fsl_div_unit", "mr_pow_rec"],
+        unwindset={("mrouter_step", 0): nb + 1, ("mrouter_step", 1): nb + 1}, defines=defines(nb),
+        backend="cadical", timeout=900, min_obligations=50, replay="replay/routing.cpp", object_bits=10,
+        clause="C05 weights, structural premise of `proportional to slope^p`: each weight stored for a receiver is a power whose base is the quotient "
+               "(elevation drop to THAT neighbour) / (grid distance to THAT neighbour) and whose exponent is the operator's configured exponent at this call "
+               "(operands recorded through contract-only quotient / power functions; the values of quotient and power stay abstract); <= %d neighbours" % nb)
+
+
+_OPS = [ops_group(2)]
+GROUPS["C05"] = GROUPS["C05"] + _OPS
